@@ -117,8 +117,11 @@ pub async fn run_scripted(rep: &mut Report, sub_seed: u64, table: Arc<Vec<Vec<u8
             } else {
                 Val::Str(format!("value{}", kid).into_bytes())
             };
-            // the real expiry on the stand-in is irrelevant: PTTL is scripted
-            src.set_raw(&key, val, None);
+            // the real expiry on the stand-in is irrelevant where PTTL is scripted with a number; the key
+            // whose PTTL is answered with an *error* (ACL, renamed command, LOADING: replies Redis does
+            // give) really has a time-to-live, and must therefore never arrive as persistent
+            let real_ttl = if matches!(pttl, Pttl::Malformed("error")) { Some(5_000_000) } else { None };
+            src.set_raw(&key, val, real_ttl);
             src.script_reply("PTTL", &key, vec![pttl_reply(&pttl)]);
             cases.push(Case {
                 key,
@@ -202,9 +205,19 @@ pub async fn run_scripted(rep: &mut Report, sub_seed: u64, table: Arc<Vec<Vec<u8
         }
         let n = match c.pttl {
             Pttl::Int(n) => n,
-            Pttl::Malformed(_) => {
+            Pttl::Malformed(kind) => {
                 rep.count("malformed_cases_observed", 1);
-                continue; // verdict-neutral: Redis never answers like this
+                if kind == "error" {
+                    rep.count("pttl_error_reply_cases_judged", 1);
+                    if ttl_args.iter().any(|t| t == "0") {
+                        rep.violation(
+                            format!("C19:expiring-key-restored-as-persistent-after-pttl-error:{:?}", c.path),
+                            format!("PTTL was answered with an error on the {:?} path, the key has a time-to-live, and the destination received RESTORE with ttl argument 0 (= no expiry)", c.path),
+                            detail.clone(),
+                        );
+                    }
+                }
+                continue; // the other shapes are verdict-neutral: Redis never answers like that
             }
         };
         rep.count("well_formed_cases_judged", 1);
